@@ -833,98 +833,6 @@ theorem tournamentRound_err_of_empty {pop : Pop F} {c : List Nat} (hc : pick pop
     tournamentRound pop c = .error .exec := by
   simp [tournamentRound, hc, withKeys, firstMin]
 
-/-! ### stochastic universal sampling in exact arithmetic -/
-
-theorem susInner_spec (distance : F) (rest : List F) (i : Nat) (sumW : F)
-    (hnn : ∀ w ∈ rest, 0 ≤ w) (hlt : distance < sumW + sum rest) :
-    ∃ i' sumW' rest', susInner distance rest i sumW = some (i', sumW', rest') ∧
-      sumW' + sum rest' = sumW + sum rest ∧ i' + rest'.length = i + rest.length ∧
-      (∀ w ∈ rest', 0 ≤ w) := by
-  induction rest generalizing i sumW with
-  | nil =>
-    unfold susInner
-    have : ¬ sumW < distance := by simp [sum_nil] at hlt; exact not_lt.mpr (le_of_lt hlt)
-    simp only [this, if_false]
-    exact ⟨i, sumW, [], rfl, rfl, rfl, hnn⟩
-  | cons w rest ih =>
-    unfold susInner
-    by_cases h : sumW < distance
-    · simp only [h, if_true]
-      obtain ⟨i', sumW', rest', h1, h2, h3, h4⟩ := ih (i + 1) (sumW + w) (fun x hx => hnn x (by simp [hx]))
-        (by rw [sum_cons] at hlt; linarith)
-      refine ⟨i', sumW', rest', h1, ?_, ?_, h4⟩
-      · rw [h2, sum_cons]; ring
-      · rw [h3]; simp; omega
-    · simp only [h, if_false]
-      exact ⟨i, sumW, w :: rest, rfl, rfl, rfl, hnn⟩
-
-theorem susOuter_spec (total gaps start : F) (n L : Nat) (hg : 0 < gaps) (hgn : gaps * n = total)
-    (hs0 : 0 ≤ start) (hs1 : start < gaps) :
-    ∀ (fuel k : Nat) (distance : F) (rest : List F) (i : Nat) (sumW : F),
-      k ≤ n → n - k ≤ fuel → distance = start + k * gaps → sumW + sum rest = total →
-      (∀ w ∈ rest, 0 ≤ w) → i + rest.length = L →
-      ∃ is, susOuter total gaps fuel distance rest i sumW = some (.ok is) ∧ is.length = n - k ∧
-        ∀ j ∈ is, j ≤ L := by
-  have key : ∀ k : Nat, k < n → start + k * gaps < total := by
-    intro k hk
-    have : (k : F) + 1 ≤ n := by exact_mod_cast hk
-    rw [← hgn]
-    nlinarith
-  have key2 : ∀ k : Nat, k = n → ¬ (start + k * gaps < total) := by
-    intro k hk; subst hk
-    rw [← hgn]; apply not_lt.mpr; nlinarith
-  intro fuel
-  induction fuel with
-  | zero =>
-    intro k distance rest i sumW hk hf hd _ _ _
-    have hkn : k = n := by omega
-    simp only [susOuter]
-    rw [hd]
-    simp only [key2 k hkn, if_false]
-    exact ⟨[], rfl, by simp [hkn], by simp⟩
-  | succ fuel ih =>
-    intro k distance rest i sumW hk hf hd hsum hnn hL
-    simp only [susOuter]
-    by_cases hlt : distance < total
-    · simp only [hlt, if_true]
-      have hkn : k < n := by
-        by_contra hc
-        have : k = n := by omega
-        exact key2 k this (hd ▸ hlt)
-      obtain ⟨i', sumW', rest', h1, h2, h3, h4⟩ := susInner_spec distance rest i sumW hnn (by rw [hsum]; exact hlt)
-      obtain ⟨is, hi1, hi2, hi3⟩ := ih (k + 1) (distance + gaps) rest' i' sumW' (by omega) (by omega)
-        (by rw [hd]; push_cast; ring) (by rw [h2, hsum]) h4 (by rw [h3, hL])
-      simp only [h1, hi1]
-      refine ⟨i' :: is, rfl, by simp [hi2]; omega, ?_⟩
-      intro j hj
-      rcases List.mem_cons.mp hj with rfl | hj
-      · omega
-      · exact hi3 j hj
-    · simp only [hlt, if_false]
-      have hkn : k = n := by
-        by_contra hc
-        exact hlt (hd ▸ key k (by omega))
-      exact ⟨[], rfl, by simp [hkn], by simp⟩
-
-/-- In exact arithmetic SUS selects exactly `n` indices, all inside the population. -/
-theorem susIndices_count (O : Ops F) (hcast : ∀ k : Nat, O.ofNat k = (k : F)) (ws : List F) (n : Nat) (u : F)
-    (hn : n ≠ 0) (hnn : ∀ w ∈ ws, 0 ≤ w) (htot : 0 < sum ws) (hu0 : 0 ≤ u) (hu1 : u < 1) :
-    ∃ is, susIndices O ws n u = some (.ok is) ∧ is.length = n ∧ ∀ j ∈ is, j < ws.length := by
-  cases ws with
-  | nil => simp [sum_nil] at htot
-  | cons w0 rest =>
-    simp only [susIndices, hcast]
-    have hnF : (0 : F) < n := by exact_mod_cast Nat.pos_of_ne_zero hn
-    have hg : 0 < sum (w0 :: rest) / n := div_pos htot hnF
-    obtain ⟨is, h1, h2, h3⟩ := susOuter_spec (sum (w0 :: rest)) (sum (w0 :: rest) / n) (u * (sum (w0 :: rest) / n))
-      n rest.length hg (div_mul_cancel₀ _ (ne_of_gt hnF)) (mul_nonneg hu0 (le_of_lt hg)) (by nlinarith)
-      (n + 2) 0 (u * (sum (w0 :: rest) / n)) rest 0 w0 (by omega) (by omega) (by simp) (by rw [sum_cons])
-      (fun w hw => hnn w (by simp [hw])) (by simp)
-    refine ⟨is, h1, by simpa using h2, ?_⟩
-    intro j hj
-    have := h3 j hj
-    simp; omega
-
 /-! ### invasive weed optimisation: number of copies -/
 
 section iwo
